@@ -1,7 +1,8 @@
 SPECIFICATION Spec
 CONSTANTS
-  Runs = {1}
-  Params <- Params_A
+  Runs = {1, 2}
+  Params <- Params_AD
+  OrderKinds = {"order", "balance", "trade"}
 INVARIANTS TypeOK PrefixAlways CompleteInOrder FeedInOrder SentOK AppliedOK SummaryOK
-PROPERTIES Isolation Monotone
+PROPERTIES Isolation Monotone 
 CHECK_DEADLOCK FALSE
